@@ -558,8 +558,10 @@ func (s *scanningState) scan(line []byte) (bool, error) {
 				return true, nil
 			}
 		}
-		// Switch to race detection mode.
-		if bytes.Equal(trimmed, raceHeaderFooter) {
+		// Switch to race detection mode. A race report can only start a new
+		// trace; after a goroutine dump the separator ends the dump instead, so
+		// the report is parsed by the next call.
+		if s.state == looking && bytes.Equal(trimmed, raceHeaderFooter) {
 			// TODO(maruel): We should buffer it in case the next line is not a
 			// WARNING so we can output it back.
 			s.state = gotRaceHeader1
